@@ -247,8 +247,8 @@ package cty
 //@   requires (or (= mk 0) (MapC<Any~Unit>.ok (select F.MapC<Any~Unit> mk)))
 //@   requires (=> (not same) (and (not (= w nil.Any)) (not (= (rfn_kind w) 0)) (=> ((_ is box<*cty.refinementNumber>) w) (and (not (= (wip_num w) 0)) (rn_ok RN) (is_number_ty (vty o)))) (=> ((_ is box<*cty.refinementCollection>) w) (and (not (= (wip_coll w) 0)) (rc_ok RC) (is_coll_ty (vty o)) (wf_ty (vty o)))) (=> ((_ is box<*cty.refinementString>) w) (and (not (= (wip_str w) 0)) (is_string_ty (vty o)) (tri_ok n0))) (=> ((_ is box<*cty.refinementNullable>) w) (and (not (= (wip_nul w) 0)) (not (is_dyn_ty (vty o))) (tri_ok n0)))))
 //@   ensures[C05] type: (= (vty result) (vty o))
-//@   ensures[C04,C05] marks_kept: (forall ((k Any)) (! (=> (and (not (= mk 0)) (select (fmarks mk) k)) (select (marks_of result) k)) :pattern ((select (fmarks mk) k))))
-//@   ensures[C04,C05] marks_only: (forall ((k Any)) (! (=> (select (marks_of result) k) (and (not (= mk 0)) (select (fmarks mk) k))) :pattern ((select (marks_of result) k))))
+//@   ensures[C04,C05] marks_kept: (forall ((k Any)) (! (=> (and (trig 0) (not (= mk 0)) (select (fmarks mk) k)) (select (marks_of result) k)) :pattern ((select (fmarks mk) k))))
+//@   ensures[C04,C05] marks_only: (forall ((k Any)) (! (=> (and (trig 0) (select (marks_of result) k)) (and (not (= mk 0)) (select (fmarks mk) k))) :pattern ((select (marks_of result) k))))
 //@   ensures[C05] known: (=> same (= (unmark result) o))
 //@   ensures[C05] null: (=> (and (not same) (= n0 84)) (and (is_known result) (is_null result)))
 //@   ensures[C05] notnull: (=> (and (not same) (= n0 70)) (not (is_null result)))
